@@ -1,4 +1,6 @@
 """C01 - parent/children links always describe one consistent forest."""
+import sys
+
 from .. import mut
 from ..core import Violation
 
@@ -10,6 +12,8 @@ RULE = (
     "(every parent target, every children sequence incl. repeats/self/ancestors, deletions, non-node and non-iterable arguments) x "
     "every position at which any of the eight hooks can raise (once; pairs up to N=3; single persistent (hook,node) pairs; read-only "
     "class plan), for a NodeMixin class, a slotted LightNodeMixin class, a mixed-family universe and two classes whose instances all compare equal (value-style __eq__/__hash__), each under both assertion settings. "
+    "Stack exhaustion as a fault: 12 calls on 3 forests of 4 nodes, each executed with 3..45 (thorough: ..90) frames of stack left, for 7 classes - wherever the RecursionError strikes, the invariant holds afterwards. "
+    "Legal children assignments with 300 (thorough: 1000) children under both assertion settings. "
     "Generated: Hypothesis histories (<= 7 nodes, <= 30 calls) over 13 class mixes (incl. links whose targets are nodes of the same universe) with random fault plans. Non-trivial = the call "
     "changed at least one link, or raised after at least one hook had run. Enumerated cases distinct by construction; histories hashed."
 )
@@ -48,7 +52,65 @@ def check_blind(case, acc):
     acc.tag("blind_histories")
 
 
+STACK_STATES = [
+    [[None, [1, 2]], [0, [3]], [0, []], [1, []]],
+    [[None, [1]], [0, [2]], [1, []], [None, []]],
+    [[None, [1, 2, 3]], [0, []], [0, []], [0, []]],
+]
+STACK_OPS = [
+    ["parent", 3, 2], ["parent", 1, None], ["parent", 3, 0], ["parent", 2, 3], ["parent", 0, 3],
+    ["children", 0, [3, 1], "list"], ["children", 2, [1, 3], "tuple"], ["children", 1, [], "list"], ["children", 0, [2, 1, 3], "gen"], ["children", 3, [0], "list"],
+    ["del", 0], ["del", 1],
+]
+STACK_SPECS = ["Node", "AnyNode", "PlainNM", "SlotLM", "DictLM", "HNM", "HLM"]
+
+
+def check_stack(case, acc):
+    """The interpreter runs out of stack somewhere inside a structural call (a recursive tree builder that catches
+    RecursionError): wherever that happens, the two link updates of a step stay together."""
+    rec, universe = mut.make_universe(case["cls"], case["state"], "parent")
+    before = mut.snapshot(universe, rec.labels)
+    old_limit = sys.getrecursionlimit()
+    outcome = None
+    try:
+        sys.setrecursionlimit(mut._stack_depth() + case["headroom"])
+        try:
+            outcome = mut._execute(universe, case["op"])
+        except RecursionError as exc:
+            outcome = exc
+    finally:
+        sys.setrecursionlimit(old_limit)
+    rec.begin_call(None)
+    problem = mut.consistency_problem(universe, rec.labels)
+    if problem is not None:
+        raise Violation("link-invariant", "%s with %d frames of stack left (ended with %s) on %s: %s" % (case["op"], case["headroom"], type(outcome).__name__, before, problem))
+    acc.nontrivial(isinstance(outcome, RecursionError))
+    acc.tag("calls_that_ran_out_of_stack", isinstance(outcome, RecursionError))
+
+
+def check_wide(case, acc):
+    """Children assignments with several hundred children (legal calls: no exception of any kind, invariant afterwards)."""
+    width = case["width"]
+    rec, universe = mut.make_universe(case["cls"], mut.all_roots(width + 2), "parent")
+    kids = list(range(2, width + 2))
+    for op in (["children", 0, kids, "list"], ["children", 0, list(reversed(kids)), "tuple"], ["children", 1, kids[::2], "gen"], ["children", 0, kids[:6:2] + kids[1::2], "list"], ["del", 1], ["children", 1, kids, "list"]):
+        exc = mut.execute(universe, op)
+        if isinstance(exc, AssertionError):
+            raise Violation("internal-assertion", "assertion fired in a legal children assignment of %d nodes: %r" % (len(op[2]) if len(op) > 2 else 0, exc))
+        if exc is not None:
+            raise Violation("link-invariant", "legal children call with %d children raised %s: %s" % (len(op[2]) if len(op) > 2 else 0, type(exc).__name__, exc))
+        problem = mut.consistency_problem(universe, rec.labels)
+        if problem is not None:
+            raise Violation("link-invariant", "after a children assignment of %d nodes: %s" % (len(op[2]) if len(op) > 2 else 0, problem))
+    acc.nontrivial(True)
+    acc.tag("wide_children_assignments")
+
+
 def check_case(case, acc):
+    if case.get("kind") == "stack":
+        return check_stack(case, acc)
+    if case.get("kind") == "wide":
+        return check_wide(case, acc)
     if case.get("kind") == "blind":
         return check_blind(case, acc)
     changed = {"n": 0, "failed_after_hook": 0, "rollback": 0, "cross_tree": 0, "recursion": 0}
@@ -93,6 +155,10 @@ def plan(tier, seed):
                     continue
                 for i in range(shards):
                     tasks.append({"engine": "enum", "n": n, "spec": spec_i, "index": i, "count": shards, "assertions": assertions, "pairs": n <= 3 and not (eq_class and tier == "quick"), "routes": None if n <= 3 else ["parent", "detour"]})
+        for cls in ("Node", "SlotLM", "HNM"):
+            tasks.append({"engine": "wide", "cls": cls, "width": 300 if tier == "quick" else 1000, "assertions": assertions})
+        for i, cls in enumerate(STACK_SPECS):
+            tasks.append({"engine": "stack", "cls": cls, "assertions": assertions, "max_headroom": 45 if tier == "quick" else 90})
         examples = 50 if tier == "quick" else 250
         for i in range(nshards):
             tasks.append({"engine": "hyp", "examples": examples, "seed": seed * 1000 + i + 100 * assertions, "assertions": assertions})
@@ -106,6 +172,15 @@ def plan(tier, seed):
 
 
 def run_task(task, acc):
+    if task["engine"] == "wide":
+        case = {"kind": "wide", "cls": task["cls"], "width": task["width"], "assertions": task["assertions"]}
+        exc = acc.evaluate(check_case, case, enumerated=False)
+        if exc is not None:
+            acc.add_violation(case, exc)
+        return
+    if task["engine"] == "stack":
+        cases = ({"kind": "stack", "cls": task["cls"], "state": state, "op": op, "headroom": h, "assertions": task["assertions"]} for state in STACK_STATES for op in STACK_OPS for h in range(3, task["max_headroom"]))
+        return acc.run_enum(check_case, cases)
     if task["engine"] == "blind-enum":
         cases = mut.blind_sequences(task["spec"], task["n"], task["length"], task["index"], task["count"])
         return acc.run_enum(check_case, (dict(c, assertions=task["assertions"]) for c in cases))
